@@ -126,7 +126,7 @@ class Cluster:
         for i in range(self.n):
             s = egosrv.Server(self.sd, self.ego, home=self.home, users_conn=conn, args=["--cluster", self.name],
                               name=os.path.join(os.path.basename(self.dir), "n%d" % (i + 1)))
-            s.start(wait=40)
+            s.start(wait=240)
             self.nodes.append(s)
             self.proxies.append(self._make_proxy(i))
             db = sqlite3.connect(self.dbfile, timeout=10)
